@@ -412,3 +412,23 @@ package util
 //@   ensures forall p string, u string, m string, x string :: !(p == pkg && u == typename && m == method) ==> (contains(amMethAtt(t, p, u, m), x) <==> contains(old(amMethAtt(t, p, u, m)), x))
 //@   ensures forall p string, u string, x string :: contains(amTypeAtt(t, p, u), x) <==> contains(old(amTypeAtt(t, p, u)), x)
 //@   ensures forall p string, f string, x string :: contains(amFuncAtt(t, p, f), x) <==> contains(old(amFuncAtt(t, p, f)), x)
+
+// ---- the defined type behind a type (C13: identity, not spelling) ---------------------------------------------
+// unalias, strip one pointer, unalias again
+//@ macro func coreType(t types.Type) types.Type = typeis(types.Unalias(t), *types.Pointer) ? types.Unalias(cast(types.Unalias(t), *types.Pointer).Elem()) : types.Unalias(t)
+//@ macro func isDef(t types.Type) bool = t != nil && typeis(coreType(t), *types.Named) && cast(coreType(t), *types.Named).Obj().Pkg() != nil
+//@ macro func defName(t types.Type) string = cast(coreType(t), *types.Named).Obj().Name()
+//@ macro func defPkg(t types.Type) string = cast(coreType(t), *types.Named).Obj().Pkg().Path()
+
+//@ func ExtractTypeInfo
+//@   props C13 C03 C01 C10
+//@   fresh
+//@   ensures (result != nil) == isDef(t)
+//@   ensures result != nil ==> result.TypeName == defName(t) && result.PkgPath == defPkg(t)
+//@   assigns nothing
+
+//@ func ExtractTypeName
+//@   props C13 C04 C10
+//@   ensures t != nil && typeis(coreType(t), *types.Named) ==> result == defName(t)
+//@   ensures !(t != nil && typeis(coreType(t), *types.Named)) ==> result == ""
+//@   assigns nothing
